@@ -409,7 +409,7 @@ theorem eventsPre_spec (cfg : Cfg) (n : Node) (f : Filter) (fromB toB : Nat) (to
             revert this
             generalize scanPre f chunk (startOf fromB tok) toB (height' + 1) pre acc 0 = r
             obtain ⟨a, t⟩ := r
-            simp only [PrePost, WinPost, List.nil_append, List.length_nil]
+            simp only [PrePost]
             have e1 : hi + 1 - (height' + 1) = hi - height' := by omega
             rintro (⟨g1, g2, g3⟩ | ⟨g1, g2, Y, hY, hYw, gv, gl, _⟩)
             · exact Or.inl ⟨g1, by rw [g2, h2, hsplit _ _ hle, e1], g3⟩
